@@ -12,6 +12,7 @@ CONSTANTS
  MaxBad = 2
  MaxRestore = 0
  MaxBadUnit = 2
+ RePut = TRUE
  DocNKeys = 2
  DocShapes = {"p", "o0", "o1", "o2", "a0", "a2", "oa", "ao", "o2a"}
  DocMaxBatch = 2
